@@ -282,9 +282,9 @@ fn subtype_collect_(
         (Null, Opt(_)) => (),
         // For opt rules we delegate to the existing subtype_ to test the condition,
         // since these are probes, not things that generate multiple independent errors.
-        (Opt(ty1), Opt(ty2)) if subtype_(report, gamma, env, ty1, ty2, depth).is_ok() => {}
+        (Opt(ty1), Opt(ty2)) if probe(report, gamma, env, ty1, ty2, depth) => {}
         (_, Opt(ty2))
-            if subtype_(report, gamma, env, t1, ty2, depth).is_ok()
+            if probe(report, gamma, env, t1, ty2, depth)
                 && !matches!(
                     env.trace_type_with_depth(ty2, depth)
                         .map(|t| t.as_ref().clone()),
@@ -512,6 +512,26 @@ fn pp_modes(modes: &[super::internal::FuncMode]) -> String {
         .join(" ")
 }
 
+/// Test `t1 <: t2` as the guard of one of the special opt rules, where a failure is not an error.
+/// The test runs on a copy of the memo table: assumptions recorded by a failed attempt were made
+/// under a hypothesis that turned out false, and must not be visible to later checks.
+fn probe(
+    report: OptReport,
+    gamma: &mut Gamma,
+    env: &TypeEnv,
+    t1: &Type,
+    t2: &Type,
+    depth: &RecursionDepth,
+) -> bool {
+    let mut trial = gamma.clone();
+    if subtype_(report, &mut trial, env, t1, t2, depth).is_ok() {
+        *gamma = trial;
+        true
+    } else {
+        false
+    }
+}
+
 fn subtype_(
     report: OptReport,
     gamma: &mut Gamma,
@@ -562,9 +582,9 @@ fn subtype_(
         (Service(_), Principal) => Ok(()),
         (Vec(ty1), Vec(ty2)) => subtype_(report, gamma, env, ty1, ty2, depth),
         (Null, Opt(_)) => Ok(()),
-        (Opt(ty1), Opt(ty2)) if subtype_(report, gamma, env, ty1, ty2, depth).is_ok() => Ok(()),
+        (Opt(ty1), Opt(ty2)) if probe(report, gamma, env, ty1, ty2, depth) => Ok(()),
         (_, Opt(ty2))
-            if subtype_(report, gamma, env, t1, ty2, depth).is_ok()
+            if probe(report, gamma, env, t1, ty2, depth)
                 && !matches!(
                     env.trace_type_with_depth(ty2, depth)?.as_ref(),
                     Null | Reserved | Opt(_)
